@@ -7,8 +7,10 @@ import (
 	ros "github.com/risor-io/risor/os"
 	goos "os"
 	"path/filepath"
+	"runtime"
 	"sort"
 	"strings"
+	"sync"
 	"sync/atomic"
 	"time"
 
@@ -64,6 +66,18 @@ func c03HostBuiltins(s *sim.Sim, h *Host, f *sim.Stream, rc *fw.RunCtx) map[stri
 		})
 	}
 	out := map[string]any{"tick": h.Tick()}
+	// hdepth measures how deep the calling goroutine's Go stack is: the VM
+	// limits its own frames, so no script may drive the host's stack without
+	// bound (a Go stack overflow cannot be recovered and ends the process)
+	out["hdepth"] = object.NewBuiltin("hdepth", func(ctx context.Context, args ...object.Object) object.Object {
+		buf := c03DepthBuf.Get().(*[]uintptr)
+		n := runtime.Callers(0, *buf)
+		c03DepthBuf.Put(buf)
+		if int64(n) > c03MaxDepth.Load() {
+			c03MaxDepth.Store(int64(n))
+		}
+		return object.NewInt(int64(n))
+	})
 	for _, n := range []string{"hfail", "hfail_soft", "hpanic_str", "hpanic_err", "hpanic_rt", "hpanic_custom", "hpanic_nilderef", "hstall"} {
 		out[n] = misbehave(n)
 	}
@@ -74,9 +88,27 @@ func c03HostBuiltins(s *sim.Sim, h *Host, f *sim.Stream, rc *fw.RunCtx) map[stri
 	return out
 }
 
+// c03HostStackBound is how many Go frames a script may put on the host's
+// goroutine stack: twelve for each of the 1024 frames the VM allows itself
+// (an ordinary call costs three, a call through a callback-carrying builtin
+// about seven).
+const c03HostStackBound = 12 * 1024
+
+var (
+	c03DepthBuf = sync.Pool{New: func() any { b := make([]uintptr, c03HostStackBound+64); return &b }}
+	c03MaxDepth atomic.Int64
+)
+
 var c03Misbehaviours = []string{"hfail()", "hfail_soft()", "hpanic_str()", "hpanic_err()", "hpanic_rt()", "hpanic_custom()", "hpanic_nilderef()", "hstall()",
 	"try(hpanic_str)", "try(func() { hpanic_rt() }, func(e) { return hpanic_err() })", "[1, 2].map(func(x) { return hpanic_str() })", "sorted([2, 1], func(a, b) { hfail(); return a < b })",
 	"spawn(hpanic_str).wait()", "spawn(func() { hpanic_custom() }).wait()", "go hpanic_err()", "func dd() { defer hpanic_str(); return 1 }; dd()", "func de() { defer func() { hfail() }(); hpanic_rt() }; de()",
+	// calls that never return to their caller by themselves: recursion, and
+	// deferred calls that defer again
+	"func rr(n) { hdepth(); return rr(n + 1) + 1 }; try(func() { rr(0) }, func(e) { return 0 })",
+	"func dr(n) { hdepth(); defer dr(n + 1); return n }; try(func() { dr(0) }, func(e) { return 0 })",
+	"func drs() { hdepth(); defer drs() }; spawn(drs).wait()",
+	"func drm(n) { hdepth(); defer func() { [n].each(func(x) { drm(x + 1) }) }() }; drm(0)",
+	"func drb(n) { hdepth(); if n < 30 { defer drb(n + 1) }; return n }; drb(0)",
 }
 
 func c03Sprinkle(g *sim.Stream, src string) string {
@@ -196,6 +228,12 @@ func runC03(rc *fw.RunCtx) {
 		src = b.String()
 	}
 	src = c03Sprinkle(g, src)
+	c03MaxDepth.Store(0)
+	if strings.Contains(src, "hdepth()") {
+		// enough steps for the recursion to reach the VM's frame limit
+		s.MaxSteps = 120000
+		rc.Hit("shape_unbounded_recursion")
+	}
 
 	// ---- environment and faults
 	extra := c03HostBuiltins(s, h, f, rc)
@@ -558,6 +596,10 @@ func runC03(rc *fw.RunCtx) {
 			rc.Violate(cls, "race detector report during this run (a data race on interpreter state is a fatal 'concurrent map' crash waiting to happen):\n%s", rep)
 			return
 		}
+	}
+	if d := c03MaxDepth.Load(); d > c03HostStackBound {
+		rc.Violate("host-stack/unbounded", "a script drove the host goroutine's stack to more than %d Go frames (the VM allows itself 1024 frames): nothing bounds it, and a Go stack overflow ends the process", c03HostStackBound)
+		return
 	}
 	if len(panics) > 0 {
 		apiName := panics[0]
